@@ -3,9 +3,14 @@ package main
 import (
 	"fmt"
 	"math/rand"
+	"runtime"
 	"runtime/debug"
 	"sort"
+	"strconv"
 	"strings"
+	"sync"
+	"sync/atomic"
+	"time"
 
 	corev1 "k8s.io/api/core/v1"
 
@@ -56,8 +61,10 @@ func (s *Sim) exec(o Op, plan map[int]world.InjectKind, provFail map[int]bool) (
 	if s.provFault {
 		s.faultMode = world.FailAt
 	}
-	s.W.BeginOp(plan, provFail)
-	s.W.In.KeepLog = true
+	if !s.compound {
+		s.W.BeginOp(plan, provFail)
+		s.W.In.KeepLog = true
+	}
 	defer func() {
 		if r := recover(); r != nil {
 			if c, ok := r.(world.Crash); ok {
@@ -80,6 +87,9 @@ func (s *Sim) exec(o Op, plan map[int]world.InjectKind, provFail map[int]bool) (
 			return
 		}
 		_, err := s.stepFilter(p)
+		if s.compound {
+			return
+		}
 		s.frozenSinceFilter = true
 		s.lastFilterPod = o.Pod
 		s.checkFilter(p, err)
@@ -96,6 +106,9 @@ func (s *Sim) exec(o Op, plan map[int]world.InjectKind, provFail map[int]bool) (
 		nb := len(s.W.Bindings())
 		frozen := s.frozenSinceFilter && s.lastFilterPod == o.Pod
 		err := s.stepBind(p, o.Node)
+		if s.compound {
+			return
+		}
 		s.frozenSinceFilter = frozen
 		s.checkBind(p, o.Node, err, pre, preStore, nb)
 	case "run":
@@ -163,9 +176,108 @@ func (s *Sim) exec(o Op, plan map[int]world.InjectKind, provFail map[int]bool) (
 		s.quiesce()
 		return
 	}
+	if s.compound {
+		return
+	}
 	s.frozenSinceFilter = false
 	s.afterStep()
 	return
+}
+
+func goid() int64 {
+	var buf [64]byte
+	n := runtime.Stack(buf[:], false)
+	// "goroutine 123 ["
+	f := strings.Fields(string(buf[:n]))
+	if len(f) < 2 {
+		return -1
+	}
+	id, _ := strconv.ParseInt(f[1], 10, 64)
+	return id
+}
+
+// runInterleaved executes operation a, pauses it at its k-th API-server call (right before the call, or right after
+// it was applied), runs up to nb other operations while a is paused, resumes a, and evaluates the state-invariant
+// monitors once everything has returned. An operation that blocks on a lock the paused one holds is given 30 ms;
+// then the paused operation is resumed and the blocked one finishes afterwards (the schedule a real mutex gives).
+func (s *Sim) runInterleaved(a Op, k int, after bool, nb int) {
+	if s.ownAlarms() > 0 {
+		return
+	}
+	s.compound = true
+	s.faultTag = "interleaved-" + a.Kind
+	defer func() { s.compound = false; s.faultTag = ""; s.W.In.Yield = nil }()
+	paused, resume, doneA := make(chan struct{}), make(chan struct{}), make(chan struct{})
+	var once sync.Once
+	var aGo int64
+	cnt := 0
+	s.W.In.Yield = func(c world.Call, aft bool) {
+		if goid() != atomic.LoadInt64(&aGo) || aft != after {
+			return
+		}
+		cnt++
+		if cnt == k {
+			once.Do(func() { close(paused); <-resume })
+		}
+	}
+	s.W.BeginOp(nil, nil)
+	go func() {
+		defer close(doneA)
+		atomic.StoreInt64(&aGo, goid())
+		s.exec(a, nil, nil)
+	}()
+	reached := false
+	select {
+	case <-paused:
+		reached = true
+	case <-doneA:
+	}
+	resumed := false
+	if reached {
+		s.Counts["interleave_pause_reached"]++
+		for i := 0; i < nb; i++ {
+			var b Op
+			if c, ok := s.controllerOp(); ok && s.rng.Intn(3) == 0 {
+				b = c
+			} else {
+				b = s.nextOp()
+			}
+			if b.Kind == "restart" || b.Kind == "quiesce" || (b.Kind == "reload" && a.Kind == "reload") {
+				continue // two overlapping reloads leave "the configuration in force" ambiguous for the harness
+			}
+			if (b.Kind == "filter" || b.Kind == "bind") && (a.Kind == "filter" || a.Kind == "bind") && b.Pod == a.Pod {
+				continue // one scheduler: a pod is never filtered/bound twice at the same time
+			}
+			doneB := make(chan struct{})
+			go func() { defer close(doneB); s.exec(b, nil, nil) }()
+			select {
+			case <-doneB:
+			case <-time.After(30 * time.Millisecond):
+				s.Counts["interleave_other_op_blocked_on_paused_op"]++
+				if !resumed {
+					close(resume)
+					resumed = true
+				}
+				select {
+				case <-doneB:
+				case <-time.After(20 * time.Second):
+					s.Inconclusive = append(s.Inconclusive, "interleaved operation did not return (possible deadlock): "+b.String()+" during "+a.String())
+					return
+				}
+			}
+			s.Counts["interleave_ops_run_during_pause"]++
+		}
+	}
+	if !resumed {
+		close(resume)
+	}
+	select {
+	case <-doneA:
+	case <-time.After(20 * time.Second):
+		s.Inconclusive = append(s.Inconclusive, "paused operation did not return after resume: "+a.String())
+		return
+	}
+	s.afterCompound()
 }
 
 // afterCrash restarts the plugin after an injected crash and evaluates the crash monitors of C05.
